@@ -390,6 +390,7 @@ type Frame struct {
 	quiet        bool    // obligations generated in this frame are discarded (auxiliary re-execution)
 	ranges       map[ssa.Value]*rangeInfo     // collections range builders (walk.go)
 	iterKey      map[int]func(string) string // callback iteration N: last key component of element j (iterkey(N, j))
+	iterStore    map[ssa.Value]*ghostRef     // Map.Iterate call -> store (indexiter.go)
 }
 
 type deferRec struct {
@@ -1999,6 +2000,11 @@ func (fr *Frame) makeIface(v Val, t types.Type) Val {
 	e.vc.declFun("unbox_"+m, []string{"Iface"}, srt)
 	b := e.vc.define("box", "Iface", app("box_"+m, v.S))
 	e.vc.assume(and(eq(app("typeof", b), fmt.Sprint(tag)), eq(app("unbox_"+m, b), v.S)))
+	if strings.HasSuffix(namedPath(v.T), "cosmos-sdk/types.Context") {
+		// an sdk.Context passed as context.Context unwraps to itself (sdk.UnwrapSDKContext)
+		e.vc.declFun("unwrap_ctx", []string{"Iface"}, srt)
+		e.vc.assume(eq(app("unwrap_ctx", b), v.S))
+	}
 	return Val{S: b, T: t}
 }
 
